@@ -22,10 +22,11 @@ Yielded Deferreds come in four shapes: fresh and unfired; already fired but chai
 unfired Deferred; already fired (ok / failed) and pause()d; already fired with nothing pending.  The
 task counts as waiting until the yielded Deferred's callback chain delivers (inner fired / unpause),
 an already-delivered success is no wait at all, an already-delivered failure is an immediate TaskFailed.
-False-alarm guards: the order in which runnable tasks are advanced is NOT checked (only the bound);
-resume() is only issued to match an earlier user pause() (an unmatched resume() on a task that waits
-on a Deferred is a caller error the implementation cannot tell from its own pause; don't-care),
-and its exception on *finished* tasks is not checked (documented: only NotPaused; test_pauseStopResume
+False-alarm guards: the order in which runnable tasks are advanced is NOT checked (the statement only
+demands non-starvation: the bound is judged, the largest observed wait is recorded as
+max_wait_percent_of_starvation_bound); an unmatched resume() aimed at a task waiting on a Deferred is
+issued (operation "uresume") but what the call answers is not judged, only that the task is not
+advanced while the Deferred is unfired; resume()'s exception on *finished* tasks is not checked (documented: only NotPaused; test_pauseStopResume
 requires a silent no-op); ticks are never re-entered from inside a tick.
 re-entrant Cooperator.stop()/start() from a callback fired by Cooperator.stop() and operations on
 tasks that stop() has not reached yet are transient don't-cares; a Deferred yielded by a task that
@@ -58,7 +59,7 @@ FLOORS = {"next_checks": 20000, "completion_checks": 5000, "done_exhausted": 100
           "done_sched_stopped": 300, "finished_op_refused": 300, "not_paused_raised": 100, "deferred_waits": 1000,
           "pause_while_waiting": 100, "ops_inside_next": 1000, "ops_inside_callback": 200, "coop_stops_with_2plus_running": 100,
           "whendone_after_completion": 200, "starvation_checks": 20000, "drains": 1000,
-          "waits_on_defer": 1000, "waits_on_dchain": 300, "waits_on_dpaused": 200, "already_fired_deferreds_yielded": 200}
+          "unmatched_resumes_while_waiting": 100, "waits_on_defer": 1000, "waits_on_dchain": 300, "waits_on_dpaused": 200, "already_fired_deferreds_yielded": 200}
 READY = True
 
 
@@ -95,6 +96,8 @@ class TaskM:
         self.recs = []
         self.since = 0
         self.orphan = False
+        self.unmatched = False
+        self.orphan_steps = 0
         self.advanced = 0
 
     def live_runnable(self):
@@ -125,8 +128,10 @@ def gen_case(rng, self_ops):
         r = rng.random()
         if r < 0.25:
             return ["pause", target()]
-        if r < 0.50:
+        if r < 0.47:
             return ["resume", target()]
+        if r < 0.50:
+            return ["uresume", target()]
         if r < 0.70:
             return ["stop", target()]
         if r < 0.80:
@@ -174,8 +179,10 @@ def gen_case(rng, self_ops):
             ops.append(["tick"])
         elif r < 0.60:
             ops.append(["pause", rng.randrange(16)])
-        elif r < 0.70:
+        elif r < 0.685:
             ops.append(["resume", rng.randrange(16)])
+        elif r < 0.70:
+            ops.append(["uresume", rng.randrange(16)])  # resume() not matched by any pause(), aimed at a task waiting on a Deferred
         elif r < 0.76:
             ops.append(["stop", rng.randrange(16)])
         elif r < 0.90:
@@ -269,11 +276,16 @@ class Monitor:
     # ---- monitor events
     def on_next(self, tm):
         self.events.append(("next", tm.tid, tm.pos))
+        if tm.orphan and tm.unmatched and tm.waiting is not None and not self.bad:
+            self.fail("unmatched-resume-advances-waiting-task", "task %d is advanced while the Deferred it yielded is unfired: an "
+                      "unmatched resume() was accepted and cancelled the Cooperator's own wait" % tm.tid, soft=True, task=tm.tid)
+            tm.unmatched = False
         if tm.orphan:
             self.stat("orphan_next_ignored")
             tm.advanced += 1
-            if tm.advanced > 50:
+            if tm.orphan_steps >= 2:
                 raise StopIteration
+            tm.orphan_steps += 1
             return 0
         if not self.bad:
             why = None
@@ -298,6 +310,7 @@ class Monitor:
                 for o in self.tasks:
                     if o is not tm and o.live_runnable():
                         self.stat("starvation_checks")
+                        self.ctx.maxi("wait_percent_of_starvation_bound", 100 * (self.units - o.since) // bound)
                         if self.units - o.since > bound:
                             self.fail("starved", "task %d runnable but not advanced for %d work units (bound %d, %d tasks)"
                                       % (o.tid, self.units - o.since, bound, n), task=o.tid)
@@ -531,6 +544,22 @@ class Monitor:
         self.stat("resumes")
         if got is not None:
             self.fail("wrong-exception", "resume() matching an earlier pause() of task %d raised %s" % (tm.tid, got.__name__), task=tm.tid)
+
+    def op_uresume(self, tm, op, where):
+        """resume() that no pause() of ours matches, on a live task waiting on a Deferred.  What the call
+        itself does is not judged (NotPaused would be the documented answer); judged is the statement:
+        the task must not be advanced while that Deferred is unfired."""
+        if tm.user_pauses or tm.done is not None or tm.waiting is None:
+            return
+        # if the implementation takes it for the end of its own wait, the real task and the model differ from here on
+        # (set before the call: accepting it on a stopped Cooperator completes the task synchronously)
+        tm.unmatched = tm.orphan = True
+        got = self.call("resume", tm.handle.resume)
+        self.events.append(("unmatched-resume", tm.tid, where, got.__name__ if got else None))
+        self.stat("unmatched_resumes_while_waiting")
+        self.stat("unmatched_resume_outcome_%s" % (got.__name__ if got else "accepted"))
+        if got is not None:
+            tm.unmatched = tm.orphan = False
 
     def op_stop(self, tm, op, where):
         expect = self.finish_kind(tm) if tm.done is not None else None
